@@ -334,6 +334,12 @@ def sub_ok(s, b):
             and b._hash_func == eb_hf(s) and 0 <= b._els_added)
 
 
+def sub_geo(s, b):
+    """b is an in-memory Bloom filter with the geometry and hash function of the expanding filter s"""
+    return (inv_bloom_mem(b) and b._est_elements == eb_est(s) and b._fpr == f32(eb_fpr(s)) and geo_bloom(b)
+            and b._hash_func == eb_hf(s))
+
+
 def inv_exp(s):
     """expanding filter: at least one sub-filter, all of the same geometry, none over capacity"""
     return (len(s._blooms) >= 1 and eb_est(s) >= 1 and 0 < f32(eb_fpr(s)) < 1
@@ -563,6 +569,41 @@ def bloom_image(s, b, off):
             and b[off + n + 17] == f32_byte(s._fpr, 1)
             and b[off + n + 18] == f32_byte(s._fpr, 2)
             and b[off + n + 19] == f32_byte(s._fpr, 3))
+
+
+def u64_at(b, off, v):
+    """the 8 bytes b[off:off+8] are the little-endian base-256 digits of v"""
+    return (le_bytes(b, off, 8) == v
+            and b[off + 0] == byte_of(v, 0) and b[off + 1] == byte_of(v, 1) and b[off + 2] == byte_of(v, 2)
+            and b[off + 3] == byte_of(v, 3) and b[off + 4] == byte_of(v, 4) and b[off + 5] == byte_of(v, 5)
+            and b[off + 6] == byte_of(v, 6) and b[off + 7] == byte_of(v, 7))
+
+
+def smul(q, w):
+    """q * w for q >= 0 (symbolically: repeated addition, which keeps the product of two unknowns out of the solver's
+    arithmetic - theory `smul` in pyvc/theories.py)"""
+    return q * w if q > 0 else 0
+
+
+def eb_cells(s):
+    """number of bytes of the bit array of every sub-filter of the expanding filter s"""
+    return cdiv(bloom_m(eb_est(s), f32(eb_fpr(s))), 8)
+
+
+def exp_image(s, b, off):
+    """b[off:] starts with the documented export of the expanding / rotating filter s: for every sub-filter its
+    uint64 element count followed by its bit array, then the footer uint64 number of sub-filters, uint64
+    estimated_elements, uint64 elements_added, float false_positive_rate"""
+    n = len(s._blooms)
+    c = eb_cells(s)
+    foot = off + smul(n, c + 8)
+    return (all(u64_at(b, off + smul(q, c + 8), s._blooms[q]._els_added)
+                and all(b[off + smul(q, c + 8) + 8 + j] == s._blooms[q]._bloom[j] for j in range(0, c))
+                for q in range(0, n))
+            and u64_at(b, foot, n) and u64_at(b, foot + 8, eb_est(s)) and u64_at(b, foot + 16, s._added_elements)
+            and f32_at(b, foot + 24) == f32(eb_fpr(s))
+            and b[foot + 24] == f32_byte(eb_fpr(s), 0) and b[foot + 25] == f32_byte(eb_fpr(s), 1)
+            and b[foot + 26] == f32_byte(eb_fpr(s), 2) and b[foot + 27] == f32_byte(eb_fpr(s), 3))
 
 
 def i32_at(b, off):
